@@ -162,7 +162,7 @@ pub fn check(tier: Tier) -> i32 {
     let mut rep = Report::new("C05", tier, "model_checking");
     rep.rule = "abstract values: every list of at most l lines over the menu {a, 'b c', ' x' (more indented), tab-led, empty, empty-with-spaces, a line of n+1 spaces, '- z', 'k: v', '# n', and as last line n-1 spaces + tab (which ends the scalar)}; configurations: {literal, folded} x {strip, clip, keep} x {auto, explicit 1, explicit 2 (both indicator orders)} x 7 parent contexts incl. a document root whose content sits at column 0 (+3 wide-indentation contexts and long lines in the thorough tier) x 5 header tails (nothing, comment, tab + comment, tab, blanks) x 5 end-of-input shapes; each is rendered to text, parsed by the real parser (3 input back-ends) and the block scalar's value and the surrounding structure are compared with the §8.1 reference semantics. Non-trivial: every rendered case; distinct: distinct (line kinds, configuration, denoted text).".into();
     rep.assumptions = vec![
-        "declined zones (not generated, see DESIGN §4 C05): explicit indentation indicator at document level; keep + a final spaces-only line without a line break; auto-detected indentation whose first non-empty line starts with a space (or, for a document root with content at column 0, with a tab)".into(),
+        "declined zones (not generated, see DESIGN §4 C05): explicit indentation indicator at document level; keep + a final spaces-only line without a line break after other lines (as the sole line it is asserted: one empty line); auto-detected indentation whose first non-empty line starts with a space (or, for a document root with content at column 0, with a tab)".into(),
     ];
     let budget = Budget::new(wall_cap(tier));
     rep.mandatory_scopes = 1;
